@@ -420,7 +420,7 @@ func (e *Engine) load(s *State, a *Addr, in ssa.Instruction) *Val {
 			z := e.zero(t)
 			return z
 		}
-		return &Val{L: c.L, NN: c.NN, Src: c.Src, SrcBase: c.SrcBase, Under: c.Under}
+		return &Val{L: c.L, NN: c.NN, Src: c.Src, SrcBase: c.SrcBase, Under: c.Under, Fn: c.Fn, Bind: c.Bind}
 	}
 	v := &Val{NN: true}
 	if a.K == AField && !strings.Contains(a.Path[1:], ".") {
@@ -581,7 +581,7 @@ func (e *Engine) constGlobalLen(g *ssa.Global) (int64, bool) {
 func (e *Engine) store(s *State, a *Addr, v *Val, in ssa.Instruction) {
 	t := a.T
 	if a.K == ALocal {
-		s.Locals[a.Alloc] = &cell{L: v.L, NN: v.NN, Src: v.Src, SrcBase: v.SrcBase, Under: v.Under}
+		s.Locals[a.Alloc] = &cell{L: v.L, NN: v.NN, Src: v.Src, SrcBase: v.SrcBase, Under: v.Under, Fn: v.Fn, Bind: v.Bind}
 		return
 	}
 	ls := e.leaves(t)
@@ -954,6 +954,10 @@ func (e *Engine) loopEnter(s *State, fn *ssa.Function, l *loop) {
 	itv := e.declare(s, "iter", "Int")
 	s.assume(app(">=", itv, "0"))
 	s.Ghost[iterKey] = itv
+	// implicit invariant of a compiler-generated slice range loop: -1 <= rangeindex < len
+	if ri := e.rangeIndexInv(s, l); ri != "" {
+		s.assume(ri)
+	}
 	// implicit frame invariant: what the contract's modifies clause does not name keeps, for every object
 	// that existed when the loop was entered, the value it had then (checked again at the back edge)
 	if gs := e.loopFrame(s, fn, l); len(gs) > 0 {
@@ -967,6 +971,12 @@ func (e *Engine) loopEnter(s *State, fn *ssa.Function, l *loop) {
 		t, _ := e.tryEvalBool(s, cx, inv.Expr)
 		s.assume(t)
 	}
+	// heap at the start of this (arbitrary) iteration, for iterstart()
+	ih := make(map[string]string, len(s.Heap))
+	for k, v := range s.Heap {
+		ih[k] = v
+	}
+	s.IterHeap = ih
 	if dec != nil {
 		m := e.evalTerm(s, e.specCtx(s, fn), dec.Expr)
 		mm := e.define(s, "measure", "Int", m)
@@ -992,6 +1002,9 @@ func (e *Engine) loopBack(s *State, fn *ssa.Function, l *loop) {
 	iterKey := fmt.Sprintf("iter%d", l.ordinal)
 	if cur, ok := s.Ghost[iterKey]; ok {
 		s.Ghost[iterKey] = app("+", cur, "1")
+	}
+	if ri := e.rangeIndexInv(s, l); ri != "" {
+		e.assert(s, e.loopName(s, l, "rangeindex", 0), "inv-keep", pos, "range index stays within -1 .. len-1", ri)
 	}
 	if gs := e.loopFrame(s, fn, l); len(gs) > 0 {
 		e.assert(s, e.loopName(s, l, "frame", 0), "frame", pos, "the loop body changes only what the modifies clause names (objects existing at loop entry)", and(gs...))
@@ -1349,4 +1362,40 @@ func (e *Engine) loopFrame(s *State, fn *ssa.Function, l *loop) []string {
 	}
 	sort.Strings(names)
 	return e.frameFormula(s, names, s.Heap, snap, alloc, excs)
+}
+
+// rangeIndexInv recognises the lowering of "for i, x := range slice": the header loads the hidden index,
+// adds one, stores it back and compares with the length taken before the loop. Returns the invariant
+// -1 <= index < len over the current value of the index cell ("" if the loop is not of that shape).
+func (e *Engine) rangeIndexInv(s *State, l *loop) string {
+	h := l.header
+	if len(h.Instrs) < 5 {
+		return ""
+	}
+	ld, ok := h.Instrs[0].(*ssa.UnOp)
+	if !ok || ld.Op != token.MUL {
+		return ""
+	}
+	al, ok := ld.X.(*ssa.Alloc)
+	if !ok || al.Comment != "rangeindex" {
+		return ""
+	}
+	add, ok := h.Instrs[1].(*ssa.BinOp)
+	if !ok || add.Op != token.ADD || add.X != ssa.Value(ld) {
+		return ""
+	}
+	st, ok := h.Instrs[2].(*ssa.Store)
+	if !ok || st.Addr != ssa.Value(al) || st.Val != ssa.Value(add) {
+		return ""
+	}
+	cmp, ok := h.Instrs[3].(*ssa.BinOp)
+	if !ok || cmp.Op != token.LSS || cmp.X != ssa.Value(add) {
+		return ""
+	}
+	c := s.Locals[al]
+	lenv, okv := s.top().Vals[cmp.Y]
+	if c == nil || !okv || len(c.L) != 1 || len(lenv.L) != 1 {
+		return ""
+	}
+	return and(app("<=", "(- 1)", c.L[0]), app("<", c.L[0], app("imax", lenv.L[0], "0")), app("<=", lenv.L[0], "4611686018427387904"))
 }
